@@ -18,14 +18,63 @@ import (
 
 // ---------------------------------------------------------------- payloads
 
+// Req and Res carry, besides the sequence number and a string payload, a map and a slice
+// whose content is a function of (direction, seq): consecutive messages have different map
+// keys and slice lengths, so a transport that decodes every message into one reused target
+// (stale map entries, shared backing arrays) delivers a message that is not the one sent.
 type Req struct {
-	Seq  int    `json:"seq" msgpack:"seq"`
-	Data string `json:"data" msgpack:"data"`
+	Seq  int            `json:"seq" msgpack:"seq"`
+	Data string         `json:"data" msgpack:"data"`
+	Tags map[string]int `json:"tags" msgpack:"tags"`
+	Vals []int          `json:"vals" msgpack:"vals"`
 }
 
 type Res struct {
-	Seq  int    `json:"seq" msgpack:"seq"`
-	Data string `json:"data" msgpack:"data"`
+	Seq  int            `json:"seq" msgpack:"seq"`
+	Data string         `json:"data" msgpack:"data"`
+	Tags map[string]int `json:"tags" msgpack:"tags"`
+	Vals []int          `json:"vals" msgpack:"vals"`
+}
+
+func tagsOf(dir, seq int) map[string]int {
+	if seq < 0 {
+		return nil
+	}
+	m := map[string]int{fmt.Sprintf("k%d", seq%3): seq*2 + dir}
+	if seq%4 == 1 {
+		m["extra"] = seq
+	}
+	return m
+}
+
+func valsOf(dir, seq int) []int {
+	if seq < 0 {
+		return nil
+	}
+	n := (seq*7 + dir) % 5
+	out := make([]int, 0, n)
+	for i := 0; i < n; i++ {
+		out = append(out, seq*10+i+dir)
+	}
+	return out
+}
+
+func sameExtras(tags map[string]int, vals []int, dir, seq int) bool {
+	wt, wv := tagsOf(dir, seq), valsOf(dir, seq)
+	if len(tags) != len(wt) || len(vals) != len(wv) {
+		return false
+	}
+	for k, v := range wt {
+		if g, ok := tags[k]; !ok || g != v {
+			return false
+		}
+	}
+	for i := range wv {
+		if vals[i] != wv[i] {
+			return false
+		}
+	}
+	return true
 }
 
 var payloadBase = func() string {
@@ -102,11 +151,12 @@ func envDuration(k string, def time.Duration) time.Duration {
 var errAborted = errors.New("verif c14: case aborted by the harness")
 
 type run struct {
-	tp   *transport
-	pl   *plan
-	rep  *kit.Report
-	kind errKind
-	ret  error
+	seenReqs []Req // requests the handler received (retained, see the "ret" op)
+	tp       *transport
+	pl       *plan
+	rep      *kit.Report
+	kind     errKind
+	ret      error
 
 	done     []chan struct{}
 	abortCh  chan struct{}
@@ -261,6 +311,10 @@ func (r *run) handler(_ context.Context, srv freighter.ServerStream[Req, Res]) (
 					r.fail("request-lost", "op %d: handler expected request seq=%d, got seq=%d", i, exp.seq, req.Seq)
 				case req.Data != payload(0, exp.seq, exp.size):
 					r.fail("request-corrupted", "op %d: request seq=%d arrived with a different payload (len %d, want %d)", i, exp.seq, len(req.Data), exp.size)
+				case !sameExtras(req.Tags, req.Vals, 0, exp.seq):
+					r.fail("request-corrupted", "op %d: request seq=%d arrived with tags=%v vals=%v, sent tags=%v vals=%v", i, exp.seq, req.Tags, req.Vals, tagsOf(0, exp.seq), valsOf(0, exp.seq))
+				default:
+					r.seenReqs = append(r.seenReqs, req)
 				}
 				nSeen++
 			}
@@ -268,7 +322,7 @@ func (r *run) handler(_ context.Context, srv freighter.ServerStream[Req, Res]) (
 				return errAborted
 			}
 		case "send":
-			err := srv.Send(Res{Seq: exp.seq, Data: payload(1, exp.seq, exp.size)})
+			err := srv.Send(Res{Seq: exp.seq, Data: payload(1, exp.seq, exp.size), Tags: tagsOf(1, exp.seq), Vals: valsOf(1, exp.seq)})
 			r.tick()
 			if r.stopped() {
 				return errAborted
@@ -279,6 +333,13 @@ func (r *run) handler(_ context.Context, srv freighter.ServerStream[Req, Res]) (
 				return errAborted
 			}
 		case "ret":
+			// messages handed out earlier must not have changed when later ones arrived
+			for _, q := range r.seenReqs {
+				if !sameExtras(q.Tags, q.Vals, 0, q.Seq) {
+					r.fail("delivered-request-changed-later", "op %d: request seq=%d, correct when it was received, now reads tags=%v vals=%v (sent tags=%v vals=%v)", i, q.Seq, q.Tags, q.Vals, tagsOf(0, q.Seq), valsOf(0, q.Seq))
+					break
+				}
+			}
 			if r.cGot.Load() < int64(r.pl.nResp) {
 				r.rep.Class("rt-unread-at-return")
 			}
@@ -294,6 +355,7 @@ func (r *run) handler(_ context.Context, srv freighter.ServerStream[Req, Res]) (
 // ---------------------------------------------------------------- client side
 
 type clientState struct {
+	got      []Res // responses received so far (retained: a later message must not alter them)
 	nGot     int   // data responses received
 	term     error // first terminal result
 	termSeen int
@@ -321,6 +383,16 @@ func (r *run) checkRecv(st *clientState, where string, res Res, err error) {
 			r.fail("response-lost", "%s: client expected response seq=%d, got seq=%d", where, st.nGot, res.Seq)
 		case res.Data != payload(1, st.nGot, r.respSize(st.nGot)):
 			r.fail("response-corrupted", "%s: response seq=%d arrived with a different payload (len %d, want %d)", where, res.Seq, len(res.Data), r.respSize(st.nGot))
+		case !sameExtras(res.Tags, res.Vals, 1, st.nGot):
+			r.fail("response-corrupted", "%s: response seq=%d arrived with tags=%v vals=%v, sent tags=%v vals=%v", where, res.Seq, res.Tags, res.Vals, tagsOf(1, st.nGot), valsOf(1, st.nGot))
+		default:
+			for _, q := range st.got {
+				if !sameExtras(q.Tags, q.Vals, 1, q.Seq) {
+					r.fail("delivered-response-changed-later", "%s: response seq=%d, correct when it was received, reads tags=%v vals=%v after response seq=%d arrived", where, q.Seq, q.Tags, q.Vals, res.Seq)
+					break
+				}
+			}
+			st.got = append(st.got, res)
 		}
 		st.nGot++
 		r.cGot.Store(int64(st.nGot))
@@ -406,7 +478,7 @@ func (r *run) client(stream freighter.ClientStream[Req, Res]) {
 		}
 		switch op.Kind {
 		case "send":
-			err := stream.Send(Req{Seq: exp.seq, Data: payload(0, max(exp.seq, 0), exp.size)})
+			err := stream.Send(Req{Seq: exp.seq, Data: payload(0, max(exp.seq, 0), exp.size), Tags: tagsOf(0, exp.seq), Vals: valsOf(0, exp.seq)})
 			r.tick()
 			if r.stopped() {
 				break
